@@ -82,7 +82,7 @@ Theorem C16_generated_expression_linear : forall (P: Type) rp (e: ex), wf e ->
     idx P s' = (idx P s + length le)%nat /\ (N.to_nat (ticks P s') <= N.to_nat (ticks P s) + 3 * length le)%nat.
 Proof.
   intros P rp e Hw s le stop l0 HS HU Hst.
-  destruct (parse_of_generated_expression_cost P rp e Hw s le stop l0 HS HU Hst) as [f0 [N [s' [H [HU' [_ [Hi Ht]]]]]]].
+  destruct (parse_of_generated_expression_cost P rp e Hw s le stop l0 HS HU Hst) as [f0 [N [s' [H [HU' [_ [Hi [Ht _]]]]]]]].
   exists f0, N, s'. split; [exact H|split; [exact HU'|split; [exact Hi|exact Ht]]].
 Qed.
 Print Assumptions C16_generated_expression_linear.
@@ -98,7 +98,7 @@ Theorem C16_generated_statement_linear : forall (P: Type) rp (x: st), swf x ->
     idx P s' = (idx P s + length le)%nat /\ (N.to_nat (ticks P s') <= N.to_nat (ticks P s) + 3 * length le)%nat.
 Proof.
   intros P rp x Hw s le stop l0 HS HU Hop.
-  destruct (parse_of_generated_block_item_cost P rp x Hw s le stop l0 HS HU Hop) as [f0 [N [s' [H [HU' [_ [Hi Ht]]]]]]].
+  destruct (parse_of_generated_block_item_cost P rp x Hw s le stop l0 HS HU Hop) as [f0 [N [s' [H [HU' [_ [Hi [Ht _]]]]]]]].
   exists f0, N, s'. split; [exact H|split; [exact HU'|split; [exact Hi|exact Ht]]].
 Qed.
 Print Assumptions C16_generated_statement_linear.
